@@ -45,6 +45,7 @@ Definition dec_label (s : sexp) : option label :=
       else if String.eqb t "flush-done" then Some LFlushDone
       else if String.eqb t "idle-exit" then Some LIdleExit
       else if String.eqb t "end" then Some LEnd
+      else if String.eqb t "cancel" then Some LCancel
       else None
   | Some (t, [a]) =>
       match as_nat a with
@@ -75,6 +76,7 @@ Definition label_name (l : label) : string :=
   | LCreate _ => "create" | LConsume _ => "consume" | LAbandon _ => "abandon" | LIdleEnter => "idle-enter"
   | LFlush _ _ => "flush" | LFlushDone => "flush-done" | LFinish _ => "finish" | LRead _ => "read"
   | LArrive _ => "arrive" | LRecv _ => "recv" | LIdleExit => "idle-exit" | LEnd => "end" | LExit _ => "exit"
+  | LCancel => "cancel"
   end.
 
 Definition label_arg (l : label) : sexp :=
@@ -196,6 +198,13 @@ Definition check (c : sexp) : sexp :=
                 as_bytes ra, as_bytes rs, as_nat lk, as_bool hg with
           | Some items, Some tr, Some dl, Some respa, Some resps, Some leak, Some hang =>
               let p := mk_prog items in
+              (* the request context was cancelled: the response legitimately differs from the
+                 all-synchronous one (fields not invoked / functions returning the context's error);
+                 every other clause is judged as usual *)
+              let cancelled := match field1 "cancelled" l with
+                               | Some b => match as_bool b with Some true => true | _ => false end
+                               | None => false
+                               end in
               if negb (wf_items p) then v_bad "ill-formed-program" else
               (* ---- the Spec oracle, on every case ---- *)
               if hang then v_oracle_fail "request-did-not-return" [] else
@@ -209,7 +218,7 @@ Definition check (c : sexp) : sexp :=
                                             | None => false end) dl with
                   | Some d => v_oracle_fail "promise-holds-wrong-result" [of_nat (fst d)]
                   | None =>
-                      if negb (bytes_eqb respa resps) then v_oracle_fail "response-differs-from-synchronous" []
+                      if negb cancelled && negb (bytes_eqb respa resps) then v_oracle_fail "response-differs-from-synchronous" []
                       else if negb (Nat.eqb leak 0) then v_oracle_fail "goroutine-blocked-after-request" [of_nat leak]
                       else
                         (* ---- the model as an acceptor of the observed history ---- *)
@@ -229,6 +238,9 @@ Definition check (c : sexp) : sexp :=
                         | inl s =>
                             match st_phase s with
                             | PEnded => v_ok (classes items tr m ++ sym_class l "gmp" ++ sym_class l "ws" ++
+                                              (if cancelled then sym_class l "cancelkind" else []) ++
+                                              (if cancelled && existsb (fun it => match it_res it with RErr (-3) => true | _ => false end) items
+                                               then ["function-returned-ctx-error"] else []) ++
                                               (if snd acc then ["variant-no-loop-after-chained"] else []))
                             | _ => v_mismatch "history-does-not-end" []
                             end
